@@ -42,6 +42,7 @@ type Op struct {
 
 	FA int    `json:"fa,omitempty"` // C18: fail the FA-th backend call of this request (1-based)
 	FK string `json:"fk,omitempty"` // C18: error kind: generic | notfound | found
+	JM string `json:"jm,omitempty"` // JSON mode: how the encoded body is spoiled (bool | num | null | trunc | array | nested)
 }
 
 // Case is a complete, replayable scenario.
@@ -219,10 +220,12 @@ func (m *Machine) pidField() string {
 func (m *Machine) pidOf(a int) string {
 	switch {
 	case a == -1:
+		// an identifier nobody has; its shape varies with the world
+		shape := m.C.Cfg.Seed % 4
 		if m.C.Cfg.Username {
-			return "nobody"
+			return []string{"nobody", "nobody", "q", "zz"}[shape]
 		}
-		return "nobody@x.io"
+		return []string{"nobody@x.io", "nobody@x.io", "q@x.io", "@x.io"}[shape]
 	case a == -2:
 		return ""
 	case a <= -3:
@@ -827,6 +830,9 @@ func (m *Machine) Exec(i int, op Op) *Violation {
 		}
 		if op.FA > 0 {
 			req.Fault = harness.FaultPlan{At: op.FA, Kind: op.FK}
+		}
+		if op.JM != "" && req.RawBody == nil {
+			req.JSONMangle = op.JM
 		}
 		s.Req = req
 		s.Resp = m.W.Do(*req)
